@@ -10,7 +10,7 @@ import GoDcp.Spec.C20
 Handlers of the on-the-wire (L2) streams that drive the REAL go-dcp client,
 metadata back ends, stream layer and `dcp.NewDcp` against the simulated node:
 
-  stream c20w  `ao-wire …`, `ao-wire-f7probe`, `ao-wire-goroutines`       (C20)
+  stream c20w  `ao-wire …`, `ao-wire-f7probe`, `ao-wire-goroutines`, `w-seqnos-multi …`   (C20)
   stream c02w  `ck-f12probe`, `ck-rt`, `ck-save`, `ck-bulk`, `ck-corrupt`, `ck-open`, `ck-file`, `ck-ro`   (C02, C05)
   stream c15w  `st-f7probe`, `st-case`                                     (C15)
   stream c14w  `key-wire-*` (the key commands `key-cp` / `key-inst` / `key-index` of
@@ -247,6 +247,54 @@ def hAoGoroutines (args : List String) (real : Option String) : Option Out := do
     | none => "-"
     | some r => verdict (r == "leaked=0") "C20.no-block"
   some { model := "leaked=0", verdict := v }
+
+
+/-! ### GetVBucketSeqNos on several KV nodes -/
+
+def nodeBeh? : String → Option NodeBeh
+  | "prompt" => some .prompt | "err" => some .err | "silent" => some .silent | "late" => some .late | _ => none
+
+def showMClass : MClass → String
+  | .ok => "ok" | .okBad => "ok-bad" | .serverError => "server-error" | .timeout => "timeout"
+  | .otherError => "other-error" | .hang => "hang" | .panic => "panic"
+
+def readMClass (s : String) : MClass :=
+  if s == "ok" then .ok
+  else if s.startsWith "ok" then .okBad
+  else if s == "server-error" then .serverError
+  else if s == "timeout" then .timeout
+  else if s == "hang" then .hang
+  else if s.startsWith "panic" then .panic
+  else .otherError
+
+def showMTime : MTime → String
+  | .before => "before" | .byDeadline => "by-deadline" | .late => "late"
+
+def readMTime? : String → Option MTime
+  | "before" => some .before | "by-deadline" => some .byDeadline | "late" => some .late | _ => none
+
+/-- `w-seqnos-multi <n> <b0>,<b1>,…`; real = `<class> <time> blocked=<k>`.  Model: the per-request
+    LTS of Model/AsyncOp.lean (`Spec.C20.multiModelObs`); monitor: `Spec.C20.checkMulti` on the real line. -/
+def hSeqnosMulti (args : List String) (real : Option String) : Option Out := do
+  let [ns, bs] := args | none
+  let n ← nat? ns
+  let behs ← (bs.splitOn ",").mapM nodeBeh?
+  if behs.length != n || n == 0 || n > 8 then none
+  let m := multiModelObs behs
+  let model := s!"{showMClass m.cls} {showMTime m.time} blocked={m.blocked}"
+  let v := match real with
+    | none => "-"
+    | some r =>
+      match toks r with
+      | [c, t, b] =>
+        (match readMTime? t, (kvArg [b] "blocked").bind String.toNat? with
+         | some t, some k =>
+           (match checkMulti { behs, cls := readMClass c, time := t, blocked := k } with
+            | some cl => s!"FAIL C20.{cl}"
+            | none => "ok")
+         | _, _ => "FAIL C20.unparsable")
+      | _ => "FAIL C20.unparsable"
+  some { model, verdict := v }
 
 
 /-! ## shared parsing / rendering of the `ck-*` and `st-case` lines -/
@@ -759,6 +807,7 @@ end Wire
 
 def wireHandlers : List (String × (List String → Option String → Option Out)) :=
   [("ao-wire", Wire.hAoWire), ("ao-wire-f7probe", Wire.hAoF7Probe), ("ao-wire-goroutines", Wire.hAoGoroutines),
+   ("w-seqnos-multi", Wire.hSeqnosMulti),
    ("ck-f12probe", Wire.hCkF12Probe), ("ck-rt", Wire.hCkRt), ("ck-save", Wire.hCkSave), ("ck-ro", Wire.hCkRo), ("ck-bulk", Wire.hCkBulk),
    ("ck-corrupt", Wire.hCkCorrupt), ("ck-file", Wire.hCkFile), ("ck-open", Wire.hCkOpen),
    ("st-f7probe", Wire.hStF7Probe), ("st-case", Wire.hStCase),
